@@ -86,6 +86,9 @@ func recipes() []recipe {
 
 // runMiner mines with the given recipe subset in the pool and checks every produced block.
 func (w *world) runMiner(mask int) (fails []string, trace string) {
+	if mask >= 1000 {
+		return w.runMinerUncle(mask - 1000)
+	}
 	db := w.env.NewChainDB()
 	eng := chainkit.Faker()
 	bc, err := w.env.Open(db, chainkit.Pruning(), eng)
@@ -177,6 +180,99 @@ func (w *world) runMiner(mask int) (fails []string, trace string) {
 		}
 	}
 	trace += fmt.Sprintf("=%d/%d", included, ntx)
+	return fails, trace
+}
+
+// runMinerUncle: the mining node holds the chain P1..P8 and has seen exactly one side block S_k (a
+// sibling of P_k); the worker then assembles block #9 and its successors, deciding by itself whether
+// S_k still qualifies as an uncle. Whatever it decides, the blocks it produced must be accepted by the
+// import path of an independent node (the uncle-age window of the builder and of the verifier agree).
+func (w *world) runMinerUncle(k int) (fails []string, trace string) {
+	trace = fmt.Sprintf("uncle-candidate-at-height-%d", k)
+	eng := chainkit.Faker()
+	var main []*types.Block
+	parent := w.env.Genesis
+	var side *types.Block
+	for i := 1; i <= 8; i++ {
+		if i == k {
+			s, _ := w.env.Gen(parent, eng, 1, func(_ int, g *core.BlockGen) { g.SetCoinbase(miner2); g.SetExtra([]byte("side")); g.OffsetTime(200) }) // later timestamp: lighter than its sibling
+			side = s[0]
+		}
+		bs, _ := w.env.Gen(parent, eng, 1, func(_ int, g *core.BlockGen) { g.SetCoinbase(miner1) })
+		main = append(main, bs[0])
+		parent = bs[0]
+	}
+	db := w.env.NewChainDB()
+	bc, err := w.env.Open(db, chainkit.Pruning(), eng)
+	if err != nil {
+		return []string{"open: " + err.Error()}, trace
+	}
+	defer bc.Stop()
+	pc := core.DefaultTxPoolConfig
+	pc.Journal = ""
+	pool := core.NewTxPool(pc, w.env.Config, bc)
+	poolStopped := false
+	defer func() {
+		if !poolStopped {
+			pool.Stop()
+		}
+	}()
+	m := miner.New(&minerBackend{db, bc, pool}, w.env.Config, new(event.TypeMux), eng) // subscribes to side-block events
+	// the side block arrives first and is displaced by its sibling (on a tie the scripted fork-choice
+	// coin prefers the newcomer), so it reaches the worker as a side-block event in every case
+	if k > 1 {
+		if _, err := bc.InsertChain(main[:k-1]); err != nil {
+			return []string{"harness: main chain rejected: " + err.Error()}, trace
+		}
+	}
+	if _, err := bc.InsertChain(types.Blocks{side}); err != nil {
+		return []string{"harness: side block rejected: " + err.Error()}, trace
+	}
+	if _, err := bc.InsertChain(main[k-1:]); err != nil {
+		return []string{"harness: main chain rejected: " + err.Error()}, trace
+	}
+	if bc.CurrentBlock().Hash() != main[7].Hash() {
+		return []string{"harness: side block became the head"}, trace
+	}
+	time.Sleep(50 * time.Millisecond) // let the worker's event loop take the side-block event (not an oracle)
+	m.Start(miner1)
+	deadline := time.Now().Add(60 * time.Second)
+	for bc.CurrentBlock().NumberU64() < 12 {
+		if time.Now().After(deadline) {
+			m.Stop()
+			return []string{"harness: miner stopped producing blocks"}, trace
+		}
+		time.Sleep(time.Millisecond)
+	}
+	pool.Stop()
+	poolStopped = true
+	time.Sleep(10 * time.Millisecond)
+	m.Stop()
+	time.Sleep(20 * time.Millisecond)
+	head := bc.CurrentBlock().NumberU64()
+	bc2, err := w.env.Open(w.env.NewChainDB(), chainkit.Archive(), chainkit.Faker())
+	if err != nil {
+		return []string{"open importer: " + err.Error()}, trace
+	}
+	defer bc2.Stop()
+	uncles := 0
+	for n := uint64(1); n <= head; n++ {
+		b := bc.GetBlockByNumber(n)
+		if b == nil {
+			return []string{fmt.Sprintf("mined block %d not retrievable", n)}, trace
+		}
+		uncles += len(b.Uncles())
+		if _, err := bc2.InsertChain(types.Blocks{b}); err != nil {
+			return []string{fmt.Sprintf("block %d assembled by the miner (%d uncles; the only candidate was a sibling of block %d) is rejected by the import path: %v", n, len(b.Uncles()), k, err)}, trace
+		}
+		if n > 8 {
+			node := &node{name: fmt.Sprintf("mined#%d", n), block: b, receipts: core.GetBlockReceipts(db, b.Hash(), n)}
+			if fails = append(fails, w.checkImported(bc2, node, true, true)...); len(fails) > 0 {
+				return fails, trace
+			}
+		}
+	}
+	trace += fmt.Sprintf("=uncles:%d", uncles)
 	return fails, trace
 }
 
